@@ -98,9 +98,9 @@ func (m *Map) pt() {
 	}
 }
 
-func (m *Map) Load(key any) (any, bool)        { m.pt(); return m.m.Load(key) }
-func (m *Map) Store(key, value any)             { m.pt(); m.m.Store(key, value) }
-func (m *Map) Delete(key any)                   { m.pt(); m.m.Delete(key) }
+func (m *Map) Load(key any) (any, bool)          { m.pt(); return m.m.Load(key) }
+func (m *Map) Store(key, value any)              { m.pt(); m.m.Store(key, value) }
+func (m *Map) Delete(key any)                    { m.pt(); m.m.Delete(key) }
 func (m *Map) LoadAndDelete(key any) (any, bool) { m.pt(); return m.m.LoadAndDelete(key) }
 func (m *Map) LoadOrStore(key, value any) (any, bool) {
 	m.pt()
